@@ -205,6 +205,7 @@ type Exec struct {
 	H0           int64 // height of the (virtual) block before the first one: the chain starts at H0+1
 	touchedByFailed map[string]bool // entities named by messages of a failed multi-message transaction
 	KeepApps     bool
+	isSub        bool // a chain built inside a probe of another run
 	lastBlockParams string
 	exportedCP   *tmConsensusParams
 	OnCommit     func(h int64) // race sub-check: called on the block goroutine after every Commit of the reference replica
@@ -394,6 +395,7 @@ func (e *Exec) Run() {
 	if !e.stop {
 		e.finalChecks()
 	}
+	e.probeStoreAddingUpgrade()
 	e.Trace.Ev("end blocks=%d violations=%d known=%d foreign=%d", len(e.Blocks), len(e.Viol), len(e.KnownHits), len(e.Foreign))
 }
 
